@@ -233,6 +233,14 @@ def string_jobs():
                                assigns=FR, frees=FREES),
                           'String append of a range: new length, NUL terminated, earlier characters undisturbed, appended characters equal the source'))
     W = st_wf(True)
+    FRa = ['__CPROVER_object_whole(self)', '__CPROVER_object_whole(self->storage_)']
+    out.append(st_job('Write.self', 'Write', ST + '_Write',
+                      dict(harness_alias={'str': 'o_self.storage_'}, obj_buffers=[('o_self.storage_', 'o_self.length_ + 1', 'char')],
+                           requires=W + ['str == self->storage_', 'len == self->length_', 'len != 0', OLDREQ, 'g_c == (g_k < self->length_ ? g_k : g_k - self->length_)'],
+                           ensures=st_ens() + ['self->length_ == 2 * %s' % O_LEN, KEEP,
+                                               '(g_k >= %s && g_k < self->length_) ==> self->storage_[g_k] == self->storage_[g_k - %s]' % (O_LEN, O_LEN)],
+                           assigns=FRa, frees=['self->storage_']),
+                      'appending a String to itself doubles it and never reads released storage', cex_K=4))
     out.append(st_job('StepBack', 'StepBack', ST + '_StepBack',
                       dict(requires=W + [OLDREQ], ensures=st_ens() + ['self->length_ == (len <= %s ? %s - len : %s)' % (O_LEN, O_LEN, O_LEN), 'g_k < self->length_ ==> self->storage_[g_k] == g_old'],
                            assigns=['self->length_', '__CPROVER_object_whole(self->storage_)']),
